@@ -151,6 +151,13 @@ def handler_coverage_corpus():
                       ("emptypar-end", chain(("A1", Parallel([])))), ("emptypar-next", chain(("A1", Parallel([])), ("A2", Pass())))):
         add("nested-%s-in-parallel" % nm, chain(("P", Parallel([inner, chain(("B1", Pass(Result=2)))])), Z), input={"none": []})
         add("nested-%s-in-map" % nm, chain(("M", Map(inner, ItemsPath="$.rows")), Z), input={"rows": [{"none": []}, {"none": []}]})
+    # the transition itself is refused (the merged output exceeds the data quota although input and result are each within it): the
+    # failure - terminal notification or the catcher's successor - must still be issued before the state's event is acknowledged
+    big = {"blob": "x" * 200000}
+    add("task-merged-output-too-big", chain(("A", Task("f1", ResultPath="$.r")), Z), workers={"f1": {"*": [["okstr", 100000]]}}, input=big)
+    add("task-merged-output-too-big-caught", chain(("A", Task("f1", ResultPath="$.r", Catch=CATCH_ALL)), Z), workers={"f1": {"*": [["okstr", 100000]]}}, input=big)
+    add("pass-output-too-big", chain(("A", Pass(Result="y" * 100000, ResultPath="$.r")), Z), input=big)
+    add("parallel-output-too-big-caught", chain(("P", Parallel([chain(("A", Pass(Result="y" * 100000))), chain(("B", Pass(Result=2)))], ResultPath="$.r", Catch=CATCH_ALL)), Z), input=big)
     add("unknown-state", {"StartAt": "A", "States": {"A": {"Type": "Pass", "Next": "Nope"}}})
     add("illegal-type", {"StartAt": "A", "States": {"A": {"Type": "Bogus", "End": True}}})
     add("express-pass", chain(("A", Pass(Result=1, ResultPath="$.a")), Z), typ="EXPRESS")
@@ -431,6 +438,7 @@ def fanout_ok_family(tier="quick"):
     # InputPath on the fan-out state itself: the saved raw input (for ResultPath and for the Map's re-entry between batches) is not the effective input
     add("map-inputpath-mc2", chain(("M", Map(it, InputPath="$.order", ItemsPath="$.lines", MaxConcurrency=2, ResultPath="$.res")), Z),
         inp={"order": {"lines": [1, 2, 3]}, "keep": True}, workers=echo, maxc={"fi": 2})
+    add("map-inputpath-empty", chain(("M", Map(it, InputPath="$.order", ItemsPath="$.lines", ResultPath="$.res")), Z), inp={"order": {"lines": []}, "keep": True}, workers=echo)
     add("par-inputpath-resultpath", chain(("P", Parallel([_branch("A", 1), _branch("B", 1, "pass")], InputPath="$.order", ResultPath="$.res")), Z),
         inp={"order": {"n": 1}, "keep": True}, workers={"f_A1": {"*": [["echo"]]}})
     if tier == "thorough":
@@ -494,6 +502,12 @@ def fanout_fail_family(tier="quick"):
             d = chain(("M", st), Z)
             w = {"fi": {"2": ERR(), "*": [["echo"]]}}
             out.append(scenario("mapfail-item2-mc%d-%s" % (mc, hname), d, workers=w, input=[1, 2, 3], family="mapfail-mc%d-%s" % (mc, hname)))
+    # a *retried* fan-out whose first attempt left a sibling waiting out its own Retry interval: that stale delegate fires while the
+    # second attempt's Tasks are outstanding (timed schedule class: time may pass while a worker is slow)
+    a = chain(("A1", Task("f_A1", Retry=[{"ErrorEquals": ["E9"], "IntervalSeconds": 3, "MaxAttempts": 2, "BackoffRate": 1.0}])))
+    d = chain(("P", Parallel([a, _branch("B", 1)], Retry=RETRY1)), Z)
+    w = {"f_A1": {"*": [["err", "E9", "again"], ["ok", "a2"], ["ok", "a3"]]}, "f_B1": {"*": [["err", "E1", "boom"], ["delay", ["ok", "b2"]]]}}
+    out.append(scenario("parfail-retried-B-then-ok-Aretrying", d, workers=w, family="parfail-retried-late-old-sibling", schedule="timed", delay_budget=1))
     if tier == "thorough":
         for hname, h in handlers.items():
             # three branches: the failure meets one sibling blocked in a Task and one in a Wait; two different failures and a bystander branch
